@@ -38,6 +38,7 @@ ALPH = {
     "rP": [I_AY, I_URN],
     "rO": [I_AX, L_PLAIN, L_LANG, L_DT1, L_DT2, L_XSD, B1, I_UNI, L_EMPTY],
     "rG": [DEF, I_AX, B1],
+    "rG4": [DEF, I_AX, B1, ("bnode", "http://a/x")],   # a blank node whose label equals an IRI used as graph name
     "rO5": [I_AX, L_LANG, L_DT1, L_XSD, B1, L_EMPTY],
 }
 
